@@ -297,6 +297,14 @@ def run_check(pid, tier, base_seed, out=sys.stdout):
             if nondet_inv:
                 print(f"  note: invariant {v['invariant']} is about nondeterminism of the code under test; its replay reproduces the "
                       f"violation but not bit-identically", file=out)
+            try:  # record the event-log digest the replay must reproduce
+                with open(path) as fh:
+                    blob = json.load(fh)
+                blob["digest"] = rep.get("digest")
+                with open(path, "w") as fh:
+                    json.dump(blob, fh, sort_keys=True, indent=1, default=str)
+            except Exception:
+                pass
             print(f"VIOLATION property={pid} replay={path}", file=out)
             print(f"  invariant={v['invariant']}: {v['msg'][:600]}", file=out)
             reported.append(path)
@@ -362,7 +370,8 @@ def run_replay(pid, path, as_json=False, out=sys.stdout):
         for v in viols:
             print(f"VIOLATION property={v['property']} replay={path}", file=out)
             print(f"  invariant={v['invariant']}: {v['msg'][:800]}", file=out)
-        print(f"[gbsim] replay digest {res.get('digest')} (recorded {blob.get('digest')})", file=out)
+        same = "same execution" if blob.get("digest") == res.get("digest") else "DIFFERENT execution (other tree or nondeterminism)"
+        print(f"[gbsim] replay digest {res.get('digest')} (recorded {blob.get('digest')}): {same}", file=out)
     if res.get("harness_error"):
         print(f"HARNESS-ERROR: {res['harness_error']}", file=out)
         return 2
